@@ -228,7 +228,22 @@ func (rn *Runner) tracer(ev string, args ...any) {
 			snap = "error: " + err.Error()
 		}
 		rn.snaps = append(rn.snaps, snapRec{ribs: ribs, proj: proj})
-		rec := Event{"typ": fmt.Sprint(args[1]), "ni": args[2], "kind": aftKind(args[3].(constants.AFT)), "snap": snap}
+		// the key the announcement names, abstracted like every other key (a spelling that is not the one programmed stays as it is)
+		kd := aftKind(args[3].(constants.AFT))
+		var key string
+		switch k := args[4].(type) {
+		case string:
+			key = abs.AbsTopKey(kd, k)
+		case uint64:
+			key = abs.AbsTopKey(kd, k)
+		default:
+			// a label arrives as uint64 (ADD) or as the union type of the removed entry (DELETE)
+			key = fmt.Sprint(k)
+			if n, err := strconv.ParseUint(key, 10, 64); err == nil && kd == "mpls" {
+				key = abs.AbsTopKey(kd, n)
+			}
+		}
+		rec := Event{"typ": fmt.Sprint(args[1]), "ni": args[2], "kind": kd, "key": key, "snap": snap}
 		if rn.lastDel != nil {
 			rn.lastDel["rsnap"] = rec
 		} else if n := len(rn.tries); n > 0 {
